@@ -437,13 +437,31 @@ func drvMacCmd(c *ctx) error {
 			2400000200, 2400000400, 3355443000, 3355442800, 3355443200, 3355443400, 4294967200, math.MaxUint32}
 		for _, k := range cmdKeys {
 			for _, f := range cmdTab[k].fields {
-				if f.kind != "freq" {
-					continue
-				}
-				for _, fv := range freqEdges {
-					v := c.genCmdVal(k, true)
-					v[f.name] = freqVal(fv)
-					c.emit(encEvent(k, v))
+				switch f.kind {
+				case "freq":
+					for _, fv := range freqEdges {
+						v := c.genCmdVal(k, true)
+						v[f.name] = freqVal(fv)
+						c.emit(encEvent(k, v))
+					}
+				case "u8": // every value of every 8-bit member, the other members in range
+					for x := 0; x < 256; x++ {
+						v := c.genCmdVal(k, true)
+						v[f.name] = x
+						c.emit(encEvent(k, v))
+					}
+				case "i8":
+					for x := -128; x < 128; x++ {
+						v := c.genCmdVal(k, true)
+						v[f.name] = x
+						c.emit(encEvent(k, v))
+					}
+				case "int":
+					for _, x := range []int{-257, -256, -255, -1, 0, 1, 2, 3, 255, 256, 257, 65536, 65537} {
+						v := c.genCmdVal(k, true)
+						v[f.name] = x
+						c.emit(encEvent(k, v))
+					}
 				}
 			}
 		}
